@@ -25,13 +25,15 @@ NAME = "sys"
 class Pipe:
     """one direction of a connection; the reader gets the bytes in fragments chosen by the case"""
 
-    def __init__(self, frag, rng):
+    def __init__(self, frag, rng, hwm=None):
         self.buf = b""
         self.eof = False
         self.frag = frag
         self.rng = rng
         self.waiter = None
         self.total = 0
+        self.hwm = hwm              # back-pressure: drain() of the writing side blocks while more than hwm bytes are unread
+        self.drainers = []
 
     def feed(self, data):
         self.buf += data
@@ -48,6 +50,11 @@ class Pipe:
         k = n if self.frag == "1024" else 1 if self.frag == "1" else self.rng.choice([1, 2, 3, 7, 50, 333, 1024])
         k = max(1, min(k, n))
         out, self.buf = self.buf[:k], self.buf[k:]
+        if self.hwm is not None and len(self.buf) <= self.hwm:
+            for fut in self.drainers:
+                if not fut.done():
+                    fut.set_result(None)
+            self.drainers = []
         await asyncio.sleep(0)
         return out
 
@@ -61,11 +68,21 @@ class PipeWriter:
         self.pipe.feed(data)
 
     async def drain(self):
-        await asyncio.sleep(0)
+        p = self.pipe
+        if p.hwm is None:
+            await asyncio.sleep(0)
+            return
+        while len(p.buf) > p.hwm and not p.eof:
+            fut = asyncio.get_running_loop().create_future()
+            p.drainers.append(fut)
+            await fut
 
     def close(self):
         self.closed = True
         self.pipe.eof = True
+        for fut in self.pipe.drainers:
+            if not fut.done():
+                fut.set_result(None)
         if self.pipe.waiter and not self.pipe.waiter.done():
             self.pipe.waiter.set_result(None)
 
@@ -73,14 +90,14 @@ class PipeWriter:
 class FakeConnection:
     """what `Client` expects of a connection object: connect(callback, for_blobs) -> client-side ConnectionHandler"""
 
-    def __init__(self, router, frag, rng, pipes, tasks):
-        self.router, self.frag, self.rng, self.pipes, self.tasks = router, frag, rng, pipes, tasks
+    def __init__(self, router, frag, rng, pipes, tasks, hwm=None):
+        self.router, self.frag, self.rng, self.pipes, self.tasks, self.hwm = router, frag, rng, pipes, tasks, hwm
 
     async def connect(self, callback, for_blobs=False):
         from indi.transport.client import tcp as ctcp
         from indi.transport.server import tcp as stcp
 
-        up, down = Pipe(self.frag, self.rng), Pipe(self.frag, self.rng)      # client->server, server->client
+        up, down = Pipe(self.frag, self.rng, self.hwm), Pipe(self.frag, self.rng, self.hwm)      # client->server, server->client
         self.pipes += [up, down]
         self.tasks.append(asyncio.get_running_loop().create_task(stcp.ConnectionHandler.handler(self.router)(up, PipeWriter(down))))
         await asyncio.sleep(0)
@@ -162,7 +179,8 @@ def run_case(case):
                 sc.handshake()
                 clients.append(sc)
             else:
-                cl = Client(FakeConnection(router, case["frag"], rng, pipes, tasks), FakeConnection(router, case["frag"], rng, pipes, tasks))
+                hwm = case.get("backpressure")
+                cl = Client(FakeConnection(router, case["frag"], rng, pipes, tasks, hwm), FakeConnection(router, case["frag"], rng, pipes, tasks, hwm))
                 await cl.start()
                 if c == "net-also":
                     pass
@@ -208,6 +226,20 @@ def run_case(case):
                             feed(data)
                 elif op[0] == "hs":
                     clients[op[1]].handshake(op[2] if len(op) > 2 else None, op[3] if len(op) > 3 else None)
+                elif op[0] == "burst":
+                    # operations in quick succession while earlier traffic is still in flight (with back-pressure: while
+                    # earlier messages are still queued on the connections' sender locks); gaps = loop iterations in between
+                    for sub, gap in zip(op[1], op[2]):
+                        if sub[0] == "cw":
+                            _, ci, dev, prop, values = sub
+                            vec = clients[ci][dev][prop]
+                            for en, val in values.items():
+                                vec[en].value = comp_dev.py_value(val) if isinstance(val, dict) else val
+                            vec.submit()
+                        else:
+                            comp_dev.apply_op(drivers[sub[1]], defns[sub[1]], [sub[0]] + sub[2:])
+                        for _ in range(gap):
+                            await asyncio.sleep(0)
             except Exception as e:  # noqa
                 exc = type(e).__name__
             await quiesce(pipes)
@@ -289,17 +321,27 @@ def run_impl(case, outcome):
                 policy = "Only" if kind == "net" else "Also" if kind == "net-also" else "Never"
                 qs.append(Query("spec c08 %s %s %d %d %d %s %s" % (policy, o["drivers"][di], op[2], op[3], op[4], obs[n - 1]["mirrors"][ci], o["mirrors"][ci]),
                                 "True", "oracle", "BLOB %d bytes published by device %d: client %d (%s) holds the wrong thing" % (len(op[5]["b"]) // 2, di, ci, kind)))
+    for n, op in enumerate(case["ops"]):
+        if op[0] == "burst" and "C08" in want:
+            o = obs[n + 1]
+            for sub in op[1]:
+                if sub[0] in ("a", "s") and isinstance(sub[5], dict) and "b" in sub[5]:
+                    for ci, kind in enumerate(case["clients"]):
+                        policy = "Only" if kind == "net" else "Also" if kind == "net-also" else "Never"
+                        qs.append(Query("spec c08 %s %s %d %d %d %s %s" % (policy, o["drivers"][sub[1]], sub[2], sub[3], sub[4], obs[n]["mirrors"][ci], o["mirrors"][ci]),
+                                        "True", "oracle", "BLOB %d bytes published by device %d in a burst under back-pressure: client %d (%s) holds the wrong thing"
+                                        % (len(sub[5]["b"]) // 2, sub[1], ci, kind)))
     if "alive" in obs[-1] and not all(obs[-1]["alive"]):
         qs.append(Query("spec istrue False", "True", "oracle", "a server connection handler ended during the session"))
     # known finding: an element longer than the junk-recovery threshold on a thresholded connection (uploads; BLOBs to an Also client)
     big = any(wire_len_estimate(v) > 2048 for op in case["ops"] if op[0] == "cw" for v in op[4].values())
     big_also = any(wire_len_estimate(op[5]) > 2048 for op in case["ops"] if op[0] in ("a", "s") and len(op) > 5) and "net-also" in case["clients"]
-    if any(op[0] == "lagbatch" and blob_redefined_then_updated(op[2], defns) for op in case["ops"]):
+    if any(op[0] in ("lagbatch", "burst") and blob_redefined_then_updated(op[2] if op[0] == "lagbatch" else [s for s in op[1] if s[0] != "cw"], defns) for op in case["ops"]):
         # known finding: a BLOB property's definition (control connection) overtaken by a later update of it (BLOB connection)
         case["kf_keys"] = ["two-connection-reordering"]
     if big or big_also:
         case["kf_keys"] = ["element-over-threshold"]
-    elif not any(op[0] == "lagbatch" for op in case["ops"]):
+    elif not any(op[0] in ("lagbatch", "burst") for op in case["ops"]):
         # correspondence: the Lean deployment model (Model/Sys.lean), step by step from the observed state:
         # the observed next state must be one the model allows (any interleaving of control and BLOB connection)
         kinds = ["%s %s %s" % (not c.startswith("snoop"), c.startswith("snoop"), c == "net-also") for c in case["clients"]]
@@ -514,3 +556,50 @@ def gen_c08(rng, tier):
     yield {"op": "sys", "devices": [blob_device()], "clients": ["net", "net"], "frag": "random", "frag_seed": 1,
            "ops": [["a", 0, 0, 0, 0, {"b": bytes(range(256)).hex(), "fmt": ".bin"}], ["a", 0, 0, 0, 1, {"b": "", "fmt": ".e"}], ["a", 0, 0, 0, 0, None],
                    ["a", 0, 0, 1, 0, {"t": "still alive"}]], "oracles": ["C08", "C01"]}
+
+
+def gen_c01_burst(rng, tier):
+    """schedules: slow peers (a writer's drain() blocks while the peer has unread bytes, so later messages queue on the
+    connection's sender lock) and operations in quick succession at every phase of the hand-over; once everything is
+    delivered every client must see every device as it is"""
+    n = 120 if tier == "thorough" else 24
+    for _ in range(n):
+        nd = rng.randint(1, 2)
+        devices = simple_devices(rng, nd)
+        for d in devices:                                  # BLOB properties stay out: their two-connection ordering is the known finding
+            for g in d["groups"]:
+                g["vectors"] = [v for v in g["vectors"] if v["kind"] != "blob"] or [dict(blob_device()["groups"][0]["vectors"][1], name="T" + g["key"])]
+        clients = rng.choice([["net"], ["net", "net"], ["net", "snoop:0"]])
+        ops = []
+        for _b in range(rng.randint(1, 3)):
+            subs, gaps = [], []
+            for _k in range(rng.randint(3, 9)):
+                di = rng.randrange(nd)
+                if rng.random() < 0.8:
+                    op = random_driver_op(rng, di, merged_of(devices[di]))
+                    if op[0] in ("ev", "eg") and rng.random() < 0.7:
+                        op = [rng.choice(["a", "s"]), di, op[2], 0 if op[0] == "eg" else op[3], 0,
+                              comp_dev.random_value(rng, merged_of(devices[di])["groups"][op[2]]["vectors"][0 if op[0] == "eg" else op[3]]["kind"])]
+                    subs.append(op)
+                else:
+                    w = client_write_op(rng, 0, devices[di])
+                    if w:
+                        subs.append(w)
+                    else:
+                        continue
+                gaps.append(rng.choice([0, 0, 1, 1, 2, 3, 5]))
+            ops.append(["burst", subs, gaps])
+        yield {"op": "sys", "devices": devices, "clients": clients, "frag": rng.choice(["1024", "random", "random"]), "frag_seed": rng.randrange(10 ** 6),
+               "backpressure": rng.choice([0, 0, 16, 300, 4096]), "ops": ops, "oracles": ["C01"]}
+
+
+def gen_c08_burst(rng, tier):
+    """a large BLOB immediately followed by more traffic to a slow peer: the later message queues behind the BLOB on the
+    connection and must neither cut into it nor get lost"""
+    sizes = [70000, 200000] if tier != "thorough" else [50000, 70000, 131072, 200000, 500000]
+    for size in sizes:
+        for hwm in ([0, 1000] if tier != "thorough" else [0, 100, 1000, 65536]):
+            data = bytes(range(256)) * (size // 256)
+            subs = [["a", 0, 0, 0, 0, {"b": data.hex(), "fmt": ".fits"}], ["st", 0, 0, 0, "Busy"], ["a", 0, 0, 0, 1, {"b": "0102", "fmt": ".x"}], ["a", 0, 0, 1, 0, {"t": "after"}]]
+            yield {"op": "sys", "devices": [blob_device()], "clients": ["net", "snoop:0"], "frag": "1024", "frag_seed": rng.randrange(10 ** 6), "backpressure": hwm,
+                   "ops": [["burst", subs, [0, rng.choice([0, 1]), 0, 2]], ["a", 0, 0, 1, 0, {"t": "later"}]], "oracles": ["C08", "C01"]}
